@@ -276,6 +276,13 @@ func (e *ExecDouble) Script(o ...ExecOutcome) {
 	e.mu.Unlock()
 }
 
+// ScriptLen returns how many scripted ExecuteTxs outcomes are still unconsumed.
+func (e *ExecDouble) ScriptLen() int {
+	e.mu.Lock()
+	defer e.mu.Unlock()
+	return len(e.script)
+}
+
 // ClearScript drops remaining scripted outcomes.
 func (e *ExecDouble) ClearScript() {
 	e.mu.Lock()
